@@ -5,8 +5,11 @@ import Mathlib.Analysis.Complex.Exponential
 /-! # C18: `GCProg.to_socp` — the second-order-cone approximation of exponential cones
 
 Property theorems about the order-faithful model `RsomeV/M/SocApprox.lean` of
-`GCProg.to_socp(degree = L, cuts = (cLo, cHi))` (rsome/gcp.py l.532-643).  The model is tied to the
-code by `test_to_socp.py` (entry-by-entry comparison with the real `to_socp`).
+`GCProg.to_socp(degree = L, cuts = (cLo, cHi))` (rsome/gcp.py l.532-647, with the repair of the lower
+cut: row 0 of every block is `t + exp(cLo)·α0 ≤ x_{i1}`).  The model is tied to the code by
+`test_to_socp.py` (entry-by-entry comparison with the real `to_socp`).  The coefficient
+`np.exp(cLo)` is the model parameter `elo` (generic field: no `exp`); the theorems over `ℝ` that need
+its value take `elo = Real.exp cLo` (the float `np.exp` is trusted to within rounding).
 
 * `socp_carry` / `socp_carry_row` / `socp_carry_feas`: rows, columns, bounds, cost and cones of the
   source program are an unchanged prefix of the result; `xmat = []`; a point feasible for the result
@@ -15,7 +18,8 @@ code by `test_to_socp.py` (entry-by-entry comparison with the real `to_socp`).
   relations `BlockRel` of its block (the literal content of the block's rows, bounds and cones).
 * `socp_block_rot`, `socp_block_sound`, `socp_block_sound_div`: the algebraic content of one block,
   over every linear ordered field: each row-triple + cone says `y² ≤ α1·w`; together they force
-  `Q4(x1/2^L, α1)^(2^L) ≤ α1^(2^(L+2)-1)·t`, i.e. `α1·P4(x1/(α1·2^L))^(2^L) ≤ t ≤ x_{i1}`.
+  `Q4(x1/2^L, α1)^(2^L) ≤ α1^(2^(L+2)-1)·t`, i.e. `α1·P4(x1/(α1·2^L))^(2^L) ≤ t`, and
+  `t + elo·α0 ≤ x_{i1}`.
 * `taylor4_close`, `taylor4_pow_close`, `taylor4_pow_close_two_pow` (over `ℝ`): `P4` is the degree-4
   Taylor polynomial of `exp`, `|exp u - P4 u| ≤ |u|^5/100`, and `P4(u)^N` is within the relative
   error `28/N^4` (`≤ 10⁻³` for `N = 2^L`, `L ≥ 4`) of `exp(N·u)` when `|N·u| ≤ 4`.
@@ -39,18 +43,18 @@ variable {K : Type} [Field K] [LinearOrder K] [IsStrictOrderedRing K]
 source the matrix, right-hand side, senses, bounds and cost are those of the source; old rows have
 zero coefficients on the new columns; new columns have zero cost and no upper bound; the cones of
 the source are a prefix of the cones of the result; there is no exponential cone left. -/
-theorem socp_carry (P : ConeProg K) (L : ℕ) (lo hi : K) :
-    (toSocp P L lo hi).lp.nr = P.lp.nr + P.xmat.length * rowCount L ∧
-    (toSocp P L lo hi).lp.nc = P.lp.nc + P.xmat.length * numCols L ∧
-    (∀ i < P.lp.nr, ∀ j < P.lp.nc, (toSocp P L lo hi).lp.a i j = P.lp.a i j) ∧
-    (∀ i < P.lp.nr, ∀ j, P.lp.nc ≤ j → (toSocp P L lo hi).lp.a i j = 0) ∧
-    (∀ i < P.lp.nr, (toSocp P L lo hi).lp.b i = P.lp.b i ∧ (toSocp P L lo hi).lp.eq i = P.lp.eq i) ∧
-    (∀ j < P.lp.nc, (toSocp P L lo hi).lp.ub j = P.lp.ub j ∧ (toSocp P L lo hi).lp.lb j = P.lp.lb j ∧
-      (toSocp P L lo hi).lp.c j = P.lp.c j) ∧
-    (∀ j, P.lp.nc ≤ j → (toSocp P L lo hi).lp.c j = 0 ∧ (toSocp P L lo hi).lp.ub j = none) ∧
-    P.qmat <+: (toSocp P L lo hi).qmat ∧
-    (toSocp P L lo hi).qmat.length = P.qmat.length + P.xmat.length * (3 + L) ∧
-    (toSocp P L lo hi).xmat = [] := by
+theorem socp_carry (P : ConeProg K) (L : ℕ) (lo hi elo : K) :
+    (toSocp P L lo hi elo).lp.nr = P.lp.nr + P.xmat.length * rowCount L ∧
+    (toSocp P L lo hi elo).lp.nc = P.lp.nc + P.xmat.length * numCols L ∧
+    (∀ i < P.lp.nr, ∀ j < P.lp.nc, (toSocp P L lo hi elo).lp.a i j = P.lp.a i j) ∧
+    (∀ i < P.lp.nr, ∀ j, P.lp.nc ≤ j → (toSocp P L lo hi elo).lp.a i j = 0) ∧
+    (∀ i < P.lp.nr, (toSocp P L lo hi elo).lp.b i = P.lp.b i ∧ (toSocp P L lo hi elo).lp.eq i = P.lp.eq i) ∧
+    (∀ j < P.lp.nc, (toSocp P L lo hi elo).lp.ub j = P.lp.ub j ∧ (toSocp P L lo hi elo).lp.lb j = P.lp.lb j ∧
+      (toSocp P L lo hi elo).lp.c j = P.lp.c j) ∧
+    (∀ j, P.lp.nc ≤ j → (toSocp P L lo hi elo).lp.c j = 0 ∧ (toSocp P L lo hi elo).lp.ub j = none) ∧
+    P.qmat <+: (toSocp P L lo hi elo).qmat ∧
+    (toSocp P L lo hi elo).qmat.length = P.qmat.length + P.xmat.length * (3 + L) ∧
+    (toSocp P L lo hi elo).xmat = [] := by
   refine ⟨rfl, rfl, ?_, ?_, ?_, ?_, ?_, ?_, ?_, rfl⟩
   · intro i hi j hj; simp [toSocp, hi, hj]
   · intro i hi j hj
@@ -66,9 +70,9 @@ theorem socp_carry (P : ConeProg K) (L : ℕ) (lo hi : K) :
 
 /-- **C18.1b.** An old row evaluates on a point of the result as on the source (new columns have
 zero coefficients), and the cost is the old cost. -/
-theorem socp_carry_row (P : ConeProg K) (L : ℕ) (lo hi : K) (x : ℕ → K) :
-    (∀ i < P.lp.nr, (toSocp P L lo hi).lp.row i x = P.lp.row i x) ∧
-    (toSocp P L lo hi).lp.obj x = P.lp.obj x := by
+theorem socp_carry_row (P : ConeProg K) (L : ℕ) (lo hi elo : K) (x : ℕ → K) :
+    (∀ i < P.lp.nr, (toSocp P L lo hi elo).lp.row i x = P.lp.row i x) ∧
+    (toSocp P L lo hi elo).lp.obj x = P.lp.obj x := by
   have key : ∀ f : ℕ → K, ∑ j ∈ range (P.lp.nc + P.xmat.length * numCols L),
       (if j < P.lp.nc then f j else 0) * x j = ∑ j ∈ range P.lp.nc, f j * x j := by
     intro f
@@ -94,12 +98,12 @@ theorem socp_carry_row (P : ConeProg K) (L : ℕ) (lo hi : K) (x : ℕ → K) :
 
 /-- **C18.1c.** A point feasible for the result satisfies every row, bound and second-order cone of
 the source (everything except the exponential cones, which the blocks replace). -/
-theorem socp_carry_feas (P : ConeProg K) (L : ℕ) (lo hi : K) (E : K → K → K → Prop) (x : ℕ → K)
-    (h : (toSocp P L lo hi).Feas E x) : P.lp.Feas x ∧ ∀ q ∈ P.qmat, socMem x q := by
-  obtain ⟨_, _, ha, _, hb, hc, _, hq, _, _⟩ := socp_carry P L lo hi
-  have hrow := (socp_carry_row P L lo hi x).1
-  have hnr : ∀ i < P.lp.nr, i < (toSocp P L lo hi).lp.nr := fun i hi => by simp only [toSocp]; omega
-  have hnc : ∀ j < P.lp.nc, j < (toSocp P L lo hi).lp.nc := fun j hj => by simp only [toSocp]; omega
+theorem socp_carry_feas (P : ConeProg K) (L : ℕ) (lo hi elo : K) (E : K → K → K → Prop) (x : ℕ → K)
+    (h : (toSocp P L lo hi elo).Feas E x) : P.lp.Feas x ∧ ∀ q ∈ P.qmat, socMem x q := by
+  obtain ⟨_, _, ha, _, hb, hc, _, hq, _, _⟩ := socp_carry P L lo hi elo
+  have hrow := (socp_carry_row P L lo hi elo x).1
+  have hnr : ∀ i < P.lp.nr, i < (toSocp P L lo hi elo).lp.nr := fun i hi => by simp only [toSocp]; omega
+  have hnc : ∀ j < P.lp.nc, j < (toSocp P L lo hi elo).lp.nc := fun j hj => by simp only [toSocp]; omega
   refine ⟨⟨?_, ?_, ?_⟩, ?_⟩
   · intro i hi
     have := h.lin.rows i (hnr i hi)
@@ -115,23 +119,23 @@ theorem socp_carry_feas (P : ConeProg K) (L : ℕ) (lo hi : K) (E : K → K → 
 
 /-! ### 2. one block -/
 
-/-- **C18.2a (model → block).** If `x` is feasible for `toSocp P L lo hi` (`1 ≤ L`, the exponential
+/-- **C18.2a (model → block).** If `x` is feasible for `toSocp P L lo hi elo` (`1 ≤ L`, the exponential
 cones of `P` are triples of existing columns) then for the `k`-th exponential cone `[i0, i1, i2]`
 of `P` the block-local point `c ↦ x (nc + k·numCols L + c)` satisfies the relations `BlockRel`
 (rows, bounds and cones of the block, read off literally; see `RsomeV/L/SocApprox.lean`). -/
-theorem socp_feas_block (P : ConeProg K) (L : ℕ) (hL : 1 ≤ L) (lo hi : K) (hx : XOk P)
-    (E : K → K → K → Prop) (x : ℕ → K) (hf : (toSocp P L lo hi).Feas E x) (k : ℕ)
+theorem socp_feas_block (P : ConeProg K) (L : ℕ) (hL : 1 ≤ L) (lo hi elo : K) (hx : XOk P)
+    (E : K → K → K → Prop) (x : ℕ → K) (hf : (toSocp P L lo hi elo).Feas E x) (k : ℕ)
     (hk : k < P.xmat.length) :
-    BlockRel L lo hi (x ((P.xmat.getD k []).getD 0 0)) (x ((P.xmat.getD k []).getD 1 0))
+    BlockRel L lo hi elo (x ((P.xmat.getD k []).getD 0 0)) (x ((P.xmat.getD k []).getD 1 0))
       (x ((P.xmat.getD k []).getD 2 0)) (fun c => x (off P L k + c)) :=
-  feas_blockRel P L hL lo hi hx E x hf k hk
+  feas_blockRel P L hL lo hi elo hx E x hf k hk
 
 /-- **C18.2b (what a row-triple + rotated cone says).** In a block, with `α1 = y 4`,
 `u = x1/2^L = y 2 / 2^L`:
 `u² ≤ α1·f`, `(u + α1)² ≤ α1·g`, `g² ≤ α1·h`, `v_d² ≤ α1·v_{d+1}` (`d + 1 < L`) and
 `v_{L-1}² ≤ α1·t`. -/
-theorem socp_block_rot (L : ℕ) (hL : 1 ≤ L) (lo hi a0 a1 a2 : K) (y : ℕ → K)
-    (h : BlockRel L lo hi a0 a1 a2 y) :
+theorem socp_block_rot (L : ℕ) (hL : 1 ≤ L) (lo hi elo a0 a1 a2 : K) (y : ℕ → K)
+    (h : BlockRel L lo hi elo a0 a1 a2 y) :
     (y 2 / 2 ^ L) ^ 2 ≤ y 4 * y 5 ∧
     (y 2 / 2 ^ L + y 4) ^ 2 ≤ y 4 * y 6 ∧
     y 6 ^ 2 ≤ y 4 * y 7 ∧
@@ -176,16 +180,17 @@ theorem Q4_eq (u a : K) (ha : a ≠ 0) : Q4 u a = a ^ 4 * P4 (u / a) := by
 
 /-- **C18.2c (block soundness, division-free).** The rows, bounds and cones of one block imply,
 with `t = y 0`, `x1 = y 2`, `α1 = y 4`:
-`Q4(x1/2^L, α1)^(2^L) ≤ α1^(2^(L+2) - 1) · t`, and `t ≤ x_{i1}`, `x0 + x1 = x_{i0}`,
+`Q4(x1/2^L, α1)^(2^L) ≤ α1^(2^(L+2) - 1) · t`, and `t + elo·α0 ≤ x_{i1}` (`elo = np.exp(cLo)`),
+`x0 + x1 = x_{i0}`,
 `α0 + α1 = x_{i2}`, `α0, α1 ≥ 0`, `x0 ≤ cLo·α0`, `cLo·α1 ≤ x1 ≤ cHi·α1`. -/
-theorem socp_block_sound (L : ℕ) (hL : 1 ≤ L) (lo hi a0 a1 a2 : K) (y : ℕ → K)
-    (h : BlockRel L lo hi a0 a1 a2 y) :
+theorem socp_block_sound (L : ℕ) (hL : 1 ≤ L) (lo hi elo a0 a1 a2 : K) (y : ℕ → K)
+    (h : BlockRel L lo hi elo a0 a1 a2 y) :
     Q4 (y 2 / 2 ^ L) (y 4) ^ 2 ^ L ≤ y 4 ^ (2 ^ (L + 2) - 1) * y 0 ∧
-    y 0 ≤ a1 ∧ y 1 + y 2 = a0 ∧ y 3 + y 4 = a2 ∧ 0 ≤ y 3 ∧ 0 ≤ y 4 ∧
+    y 0 + elo * y 3 ≤ a1 ∧ y 1 + y 2 = a0 ∧ y 3 + y 4 = a2 ∧ 0 ≤ y 3 ∧ 0 ≤ y 4 ∧
     y 1 ≤ lo * y 3 ∧ lo * y 4 ≤ y 2 ∧ y 2 ≤ hi * y 4 := by
   have hV : numVars L = 8 + L := by unfold numVars; omega
   have ha : 0 ≤ y 4 := h.nonneg 4 (by omega) (by omega)
-  obtain ⟨r0, r1, r2, r3, r4⟩ := socp_block_rot L hL lo hi a0 a1 a2 y h
+  obtain ⟨r0, r1, r2, r3, r4⟩ := socp_block_rot L hL lo hi elo a0 a1 a2 y h
   refine ⟨?_, h.epi, h.splitx, h.splita, h.nonneg 3 (by omega) (by omega), ha, h.cutLo0, h.cutLo1,
     h.cutHi⟩
   have ht : 20 / 24 * (y 2 / 2 ^ L) + 23 / 24 * y 4 + 1 / 4 * y 5 + 1 / 24 * y 7 ≤ y 8 := by
@@ -210,10 +215,10 @@ theorem socp_block_sound (L : ℕ) (hL : 1 ≤ L) (lo hi a0 a1 a2 : K) (y : ℕ 
 
 /-- **C18.2d (block soundness, with division).** If `α1 > 0` the block enforces
 `α1 · P4(x1/(α1·2^L))^(2^L) ≤ t` (`≤ x_{i1}`); if `α1 = 0` it enforces `x1 = 0`. -/
-theorem socp_block_sound_div (L : ℕ) (hL : 1 ≤ L) (lo hi a0 a1 a2 : K) (y : ℕ → K)
-    (h : BlockRel L lo hi a0 a1 a2 y) :
+theorem socp_block_sound_div (L : ℕ) (hL : 1 ≤ L) (lo hi elo a0 a1 a2 : K) (y : ℕ → K)
+    (h : BlockRel L lo hi elo a0 a1 a2 y) :
     (0 < y 4 → y 4 * P4 (y 2 / (y 4 * 2 ^ L)) ^ 2 ^ L ≤ y 0) ∧ (y 4 = 0 → y 2 = 0) := by
-  obtain ⟨hq, -⟩ := socp_block_sound L hL lo hi a0 a1 a2 y h
+  obtain ⟨hq, -⟩ := socp_block_sound L hL lo hi elo a0 a1 a2 y h
   constructor
   · intro ha
     rw [Q4_eq _ _ (ne_of_gt ha)] at hq
@@ -230,7 +235,7 @@ theorem socp_block_sound_div (L : ℕ) (hL : 1 ≤ L) (lo hi a0 a1 a2 : K) (y : 
     rw [e2, mul_assoc] at hq
     exact le_of_mul_le_mul_left hq hp
   · intro ha
-    obtain ⟨r0, -⟩ := socp_block_rot L hL lo hi a0 a1 a2 y h
+    obtain ⟨r0, -⟩ := socp_block_rot L hL lo hi elo a0 a1 a2 y h
     rw [ha, zero_mul] at r0
     have h2 : y 2 / 2 ^ L = 0 := by
       have := sq_nonneg (y 2 / 2 ^ L)
@@ -239,8 +244,8 @@ theorem socp_block_sound_div (L : ℕ) (hL : 1 ≤ L) (lo hi a0 a1 a2 : K) (y : 
     exact (div_eq_zero_iff.mp h2).resolve_right hp
 
 /-- **C18.2e.** The epigraph column of a block is non-negative: `0 ≤ t`. -/
-theorem socp_block_t_nonneg (L : ℕ) (hL : 1 ≤ L) (lo hi a0 a1 a2 : K) (y : ℕ → K)
-    (h : BlockRel L lo hi a0 a1 a2 y) : 0 ≤ y 0 := by
+theorem socp_block_t_nonneg (L : ℕ) (hL : 1 ≤ L) (lo hi elo a0 a1 a2 : K) (y : ℕ → K)
+    (h : BlockRel L lo hi elo a0 a1 a2 y) : 0 ≤ y 0 := by
   obtain ⟨h0, h1, h2, h3, h4⟩ := h.rot (2 + L) (by omega)
   have e2 : wCol L (2 + L) = 0 := by
     unfold wCol
@@ -383,10 +388,10 @@ theorem taylor4_pow_close_two_pow (L : ℕ) (hL : 4 ≤ L) (u : ℝ) (hu : |(2 :
 
 /-- **C18.4a (one block over `ℝ`).** With `L ≥ 4` and cuts inside `[-4, 4]`, a block with `α1 > 0`
 enforces `(1 − 10⁻³)·α1·exp(x1/α1) ≤ t`. -/
-theorem socp_block_exp_lower (L : ℕ) (hL : 4 ≤ L) (lo hi a0 a1 a2 : ℝ) (hlo : -4 ≤ lo) (hhi : hi ≤ 4)
-    (y : ℕ → ℝ) (h : BlockRel L lo hi a0 a1 a2 y) (ha : 0 < y 4) :
+theorem socp_block_exp_lower (L : ℕ) (hL : 4 ≤ L) (lo hi elo a0 a1 a2 : ℝ) (hlo : -4 ≤ lo) (hhi : hi ≤ 4)
+    (y : ℕ → ℝ) (h : BlockRel L lo hi elo a0 a1 a2 y) (ha : 0 < y 4) :
     (1 - 1 / 1000) * (y 4 * Real.exp (y 2 / y 4)) ≤ y 0 := by
-  have hd := (socp_block_sound_div L (by omega) lo hi a0 a1 a2 y h).1 ha
+  have hd := (socp_block_sound_div L (by omega) lo hi elo a0 a1 a2 y h).1 ha
   have hp : (0 : ℝ) < 2 ^ L := by positivity
   have hw : (2 : ℝ) ^ L * (y 2 / (y 4 * 2 ^ L)) = y 2 / y 4 := by
     field_simp
@@ -404,26 +409,33 @@ theorem socp_block_exp_lower (L : ℕ) (hL : 4 ≤ L) (lo hi a0 a1 a2 : ℝ) (hl
   have := mul_le_mul_of_nonneg_left ht ha.le
   linarith
 
-/-- **C18.4b (the result of `to_socp` over `ℝ`).** Let `x` be feasible for `toSocp P L lo hi` with
-`L ≥ 4`, `-4 ≤ lo`, `hi ≤ 4`.  Then for every exponential cone `[i0, i1, i2]` of `P` there is a split
-`x_{i0} = x0 + x1`, `x_{i2} = α0 + α1` with `α0, α1 ≥ 0`, `x0 ≤ lo·α0`, `lo·α1 ≤ x1 ≤ hi·α1`,
-`0 ≤ x_{i1}`, and `(1 − 10⁻³)·α1·exp(x1/α1) ≤ x_{i1}` if `α1 > 0`, `x1 = 0` if `α1 = 0`. -/
+/-- **C18.4b (the result of `to_socp` over `ℝ`).** Let `x` be feasible for
+`toSocp P L lo hi (exp lo)` with `L ≥ 4`, `-4 ≤ lo`, `hi ≤ 4`.  Then for every exponential cone
+`[i0, i1, i2]` of `P` there is a split `x_{i0} = x0 + x1`, `x_{i2} = α0 + α1` with `α0, α1 ≥ 0`,
+`x0 ≤ lo·α0`, `lo·α1 ≤ x1 ≤ hi·α1`, `0 ≤ x_{i1}`, `exp(lo)·α0 ≤ x_{i1}` (the flat piece below the
+cut), and `(1 − 10⁻³)·α1·exp(x1/α1) + exp(lo)·α0 ≤ x_{i1}` if `α1 > 0`, `x1 = 0` if `α1 = 0`.
+(The bound in the original columns, free of the split, is `C18Upper.toSocp_sound_orig`.) -/
 theorem socp_exp_lower (P : ConeProg ℝ) (L : ℕ) (hL : 4 ≤ L) (lo hi : ℝ) (hlo : -4 ≤ lo) (hhi : hi ≤ 4)
-    (hx : XOk P) (E : ℝ → ℝ → ℝ → Prop) (x : ℕ → ℝ) (hf : (toSocp P L lo hi).Feas E x) (k : ℕ)
-    (hk : k < P.xmat.length) :
+    (hx : XOk P) (E : ℝ → ℝ → ℝ → Prop) (x : ℕ → ℝ)
+    (hf : (toSocp P L lo hi (Real.exp lo)).Feas E x) (k : ℕ) (hk : k < P.xmat.length) :
     ∃ x0 x1 α0 α1 : ℝ,
       x0 + x1 = x ((P.xmat.getD k []).getD 0 0) ∧ α0 + α1 = x ((P.xmat.getD k []).getD 2 0) ∧
       0 ≤ α0 ∧ 0 ≤ α1 ∧ x0 ≤ lo * α0 ∧ lo * α1 ≤ x1 ∧ x1 ≤ hi * α1 ∧
       0 ≤ x ((P.xmat.getD k []).getD 1 0) ∧
-      (0 < α1 → (1 - 1 / 1000) * (α1 * Real.exp (x1 / α1)) ≤ x ((P.xmat.getD k []).getD 1 0)) ∧
+      Real.exp lo * α0 ≤ x ((P.xmat.getD k []).getD 1 0) ∧
+      (0 < α1 → (1 - 1 / 1000) * (α1 * Real.exp (x1 / α1)) + Real.exp lo * α0 ≤
+        x ((P.xmat.getD k []).getD 1 0)) ∧
       (α1 = 0 → x1 = 0) := by
-  have hb := socp_feas_block P L (by omega) lo hi hx E x hf k hk
-  obtain ⟨-, h1, h2, h3, h4, h5, h6, h7, h8⟩ := socp_block_sound L (by omega) _ _ _ _ _ _ hb
-  have ht := socp_block_t_nonneg L (by omega) _ _ _ _ _ _ hb
-  refine ⟨_, _, _, _, h2, h3, h4, h5, h6, h7, h8, le_trans ht h1, ?_, ?_⟩
+  have hb := socp_feas_block P L (by omega) lo hi (Real.exp lo) hx E x hf k hk
+  obtain ⟨-, h1, h2, h3, h4, h5, h6, h7, h8⟩ := socp_block_sound L (by omega) _ _ _ _ _ _ _ hb
+  have ht := socp_block_t_nonneg L (by omega) _ _ _ _ _ _ _ hb
+  have he : 0 ≤ Real.exp lo * x (off P L k + 3) := mul_nonneg (Real.exp_pos lo).le h4
+  refine ⟨_, _, _, _, h2, h3, h4, h5, h6, h7, h8, by linarith, by linarith, ?_, ?_⟩
   · intro ha
-    exact le_trans (socp_block_exp_lower L hL lo hi _ _ _ hlo hhi _ hb ha) h1
-  · exact (socp_block_sound_div L (by omega) _ _ _ _ _ _ hb).2
+    have := socp_block_exp_lower L hL lo hi _ _ _ _ hlo hhi _ hb ha
+    linarith
+  · exact (socp_block_sound_div L (by omega) _ _ _ _ _ _ _ hb).2
+
 /-- **C18.4c (default arguments).** `soc_solve` / `to_socp` default to `degree = 4`,
 `cuts = (-30, 60)`.  At the upper cut `x1/α1 = 60` the Taylor argument is `u = 60/16 = 3.75`, far
 outside the range where `P4` is close to `exp`: the bound `α1·P4(60/2^4)^(2^4) ≤ t` that the block
@@ -451,13 +463,18 @@ def exP : ConeProg ℚ :=
             c := fun j => if j = 0 then 1 else 0 }
     st := fun _ j => decide (j = 1 ∨ j = 2), qmat := [[0, 1]], xmat := [[1, 2, 3]] }
 
-example : (toSocp exP 1 (-1) 1).lp.nr = 20 ∧ (toSocp exP 1 (-1) 1).lp.nc = 25 := by decide
-example : (toSocp exP 1 (-1) 1).qmat =
+example : (toSocp exP 1 (-1) 1 (3 / 8)).lp.nr = 20 ∧ (toSocp exP 1 (-1) 1 (3 / 8)).lp.nc = 25 := by decide
+example : (toSocp exP 1 (-1) 1 (3 / 8)).qmat =
     [[0, 1], [15, 14, 13], [18, 17, 16], [21, 20, 19], [24, 23, 22]] := by decide
-example : (toSocp exP 1 (-1) 1).lp.a 1 2 = -1 := by
+example : (toSocp exP 1 (-1) 1 (3 / 8)).lp.a 1 2 = -1 := by
   simp [toSocp, exP, globalRow, leftRow, blockRow, entry, rowCount, off, numCols, numVars]
 
-example : (toSocp exP 1 (-1) 1).lp.a 4 6 = 5 / 12 ∧ (toSocp exP 1 (-1) 1).lp.a 4 12 = -1 := by
+/-- the entry of the repair: row 0 of the block (row `1`), column `α0` (`4 + 3`), value `elo` -/
+example : (toSocp exP 1 (-1) 1 (3 / 8)).lp.a 1 7 = 3 / 8 ∧ (toSocp exP 1 (-1) 1 (3 / 8)).lp.a 1 4 = 1 := by
+  constructor <;>
+  simp [toSocp, exP, globalRow, leftRow, blockRow, entry, rowCount, off, numCols, numVars]
+
+example : (toSocp exP 1 (-1) 1 (3 / 8)).lp.a 4 6 = 5 / 12 ∧ (toSocp exP 1 (-1) 1 (3 / 8)).lp.a 4 12 = -1 := by
   constructor
   · simp [toSocp, exP, globalRow, leftRow, blockRow, entry, rowCount, off, numCols, numVars]
     norm_num
@@ -468,8 +485,8 @@ example : (toSocp exP 1 (-1) 1).lp.a 4 6 = 5 / 12 ∧ (toSocp exP 1 (-1) 1).lp.a
 def exY : ℕ → ℚ := fun c =>
   [1, 0, 0, 0, 1, 0, 1, 1, 1, 1/2, 0, 1/2, 0, 1, 1, 0, 1, 1, 0, 1, 1].getD c 0
 
-/-- `BlockRel` is satisfiable (the block of the cone `a0 = 0, a1 = 1, a2 = 1`) -/
-example : BlockRel 1 (-1) 1 0 1 1 exY := by
+/-- `BlockRel` is satisfiable (the block of the cone `a0 = 0, a1 = 1, a2 = 1`; `elo = 3/8 ≈ exp(-1)`) -/
+example : BlockRel 1 (-1) 1 (3 / 8) 0 1 1 exY := by
   refine ⟨by norm_num [exY], by norm_num [exY], by norm_num [exY], by norm_num [exY],
     by norm_num [exY], by norm_num [exY], by norm_num [exY], ?_, ?_⟩
   · intro c h3 hV
@@ -478,6 +495,37 @@ example : BlockRel 1 (-1) 1 0 1 1 exY := by
   · intro q hq
     have : q < 4 := hq
     interval_cases q <;> norm_num [exY, numVars, wCol, yVal]
+
+/-- a block point that uses the split: `α0 = α1 = 1`, `x0 = -2 ≤ lo·α0`, `x1 = 0`, `t = 1`, cone
+`a0 = -2, a2 = 2` and `a1 = t + elo·α0 = 11/8` (row 0 with the new entry is tight) -/
+def exY2 : ℕ → ℚ := fun c =>
+  [1, -2, 0, 1, 1, 0, 1, 1, 1, 1/2, 0, 1/2, 0, 1, 1, 0, 1, 1, 0, 1, 1].getD c 0
+
+example : BlockRel 1 (-1) 1 (3 / 8) (-2) (11 / 8) 2 exY2 := by
+  refine ⟨by norm_num [exY2], by norm_num [exY2], by norm_num [exY2], by norm_num [exY2],
+    by norm_num [exY2], by norm_num [exY2], by norm_num [exY2], ?_, ?_⟩
+  · intro c h3 hV
+    have : c < 9 := hV
+    interval_cases c <;> norm_num [exY2]
+  · intro q hq
+    have : q < 4 := hq
+    interval_cases q <;> norm_num [exY2, numVars, wCol, yVal]
+
+/-- with `a1` below `t + elo·α0` row 0 fails: the same point is NOT a block point for `a1 = 1`
+(it was one before the repair, `elo = 0`) -/
+example : ¬ BlockRel 1 (-1) 1 (3 / 8) (-2) 1 2 exY2 ∧ BlockRel 1 (-1) 1 0 (-2) 1 2 exY2 := by
+  constructor
+  · intro h
+    have := h.epi
+    norm_num [exY2] at this
+  · refine ⟨by norm_num [exY2], by norm_num [exY2], by norm_num [exY2], by norm_num [exY2],
+      by norm_num [exY2], by norm_num [exY2], by norm_num [exY2], ?_, ?_⟩
+    · intro c h3 hV
+      have : c < 9 := hV
+      interval_cases c <;> norm_num [exY2]
+    · intro q hq
+      have : q < 4 := hq
+      interval_cases q <;> norm_num [exY2, numVars, wCol, yVal]
 
 /-- and the block soundness statement at that point reads `1 ≤ 1` -/
 example : Q4 (exY 2 / 2 ^ 1) (exY 4) ^ 2 ^ 1 ≤ exY 4 ^ (2 ^ (1 + 2) - 1) * exY 0 := by
@@ -497,17 +545,17 @@ lemma exP_ok : XOk exP := by
   simp [exP]
 
 /-- the result has feasible points (so `socp_feas_block` is not vacuous) -/
-example : (toSocp exP 1 (-1) 1).Feas (fun _ _ _ => True) exX := by
+example : (toSocp exP 1 (-1) 1 (3 / 8)).Feas (fun _ _ _ => True) exX := by
   refine ⟨⟨?_, ?_, ?_⟩, ?_, ?_⟩
   · intro i hi
     have hi' : i < 20 := hi
     rcases Nat.eq_zero_or_pos i with rfl | hpos
-    · rw [(socp_carry_row exP 1 (-1) 1 exX).1 0 (by decide)]
+    · rw [(socp_carry_row exP 1 (-1) 1 (3 / 8) exX).1 0 (by decide)]
       simp [LinProg.row, toSocp, exP, Finset.sum_range_succ, exX]
     · obtain ⟨r, rfl⟩ : ∃ r, i = exP.lp.nr + 0 * rowCount 1 + r := ⟨i - 1, by simp [exP]; omega⟩
       have hr : r < rowCount 1 := by simp [exP] at hi'; unfold rowCount; omega
-      rw [toSocp_eq_block _ _ _ _ _ _ hr, toSocp_row_block _ _ le_rfl _ _ exP_ok 0 (by decide) r hr,
-        toSocp_b_block _ _ _ _ _ _ hr]
+      rw [toSocp_eq_block _ _ _ _ _ _ _ hr, toSocp_row_block _ _ le_rfl _ _ _ exP_ok 0 (by decide) r hr,
+        toSocp_b_block _ _ _ _ _ _ _ hr]
       have : r < 19 := hr
       interval_cases r <;>
       simp [exP, leftRow, blockRow, blockEq, off, numCols, numVars, wCol, yRow, exX] <;> norm_num
@@ -517,7 +565,7 @@ example : (toSocp exP 1 (-1) 1).Feas (fun _ _ _ => True) exX := by
     have : j < 25 := hj
     interval_cases j <;> simp [toSocp, exP, LinProg.geLb, blockLb, numCols, numVars, exX]
   · intro q hq
-    have hq' : (toSocp exP 1 (-1) 1).qmat =
+    have hq' : (toSocp exP 1 (-1) 1 (3 / 8)).qmat =
         [[0, 1], [15, 14, 13], [18, 17, 16], [21, 20, 19], [24, 23, 22]] := by decide
     rw [hq'] at hq
     simp at hq
